@@ -277,6 +277,7 @@ def build(base, reqs, group_size=1, scratch=""):
         ids = [g["rq"].get("ti", g["k"]) for g in group]
         for g in group:
             g["after"] = name
+            g["n_after"] = s.n - 1
             g["group"] = ids
         del group[:]
         return name
@@ -333,6 +334,7 @@ def build(base, reqs, group_size=1, scratch=""):
         if effect:
             cur = snap()
             it["after"] = cur
+            it["n_after"] = s.n - 1
             it["group"] = [rq.get("ti", k)]
             if base["rec"] and int(g[0][:, 0].max()) + 1 > numrecs:
                 teardown()
@@ -387,10 +389,22 @@ def describe(base, rq):
 
 def evaluate(pl, res, d, stats):
     base = pl.base
-    for n, what in pl.setup:
-        rc = res.rc(n)
-        if rc != 0:
-            raise HarnessTrouble("setup statement %d (%s) returned %s" % (n, what, rc))
+    setup_iter = iter(pl.setup)
+    pending = [next(setup_iter, None)]
+
+    def setup_ok(upto, probs):
+        """check the harness statements (create, fill, snapshot, ...) numbered below `upto`.  A failure after a tested
+        request already misbehaved is a consequence of that (e.g. NC_EPENDING at close): stop evaluating, report what
+        was found; a failure out of the blue is harness trouble, not a verdict."""
+        while pending[0] is not None and pending[0][0] < upto:
+            n, what = pending[0]
+            rc = res.rc(n)
+            if rc != 0:
+                if probs:
+                    return False
+                raise HarnessTrouble("harness statement %d (%s) returned %s" % (n, what, rc))
+            pending[0] = next(setup_iter, None)
+        return True
     cache = {}
 
     def snap(name):
@@ -403,6 +417,7 @@ def evaluate(pl, res, d, stats):
             cache[name] = b
         return b
 
+    setup_ok(pl.items[0]["n"] if pl.items else 1 << 60, [])
     first = snap("s0")
     try:
         hdr = cdfspec.decode(first, strict=True)
@@ -426,6 +441,8 @@ def evaluate(pl, res, d, stats):
     for it in pl.items:
         rq, v, k = it["rq"], it["v"], it["k"]
         form = rq["form"]
+        if not setup_ok(it["n"], probs):
+            return probs, nt
         e = res.get(it["n"])
         rc = None if e is None else e.get("rc")
         stats["tuples"] += 1
@@ -457,6 +474,8 @@ def evaluate(pl, res, d, stats):
                     probs.append(_prob(base, "wait", "%s: wait returned %s status %s for an accepted request" % (describe(base, rq), wrc, wst),
                                        k, rq, rc=wrc))
         if not it["effect"]:
+            if not setup_ok(it["n_after"] + 1, probs):
+                return probs, nt
             key = (it["before"], it["after"])
             same = unchanged.get(key)
             if same is None:
@@ -481,6 +500,8 @@ def evaluate(pl, res, d, stats):
         if not done:
             continue        # already reported through the return code / wait
         # ---- accepted, non-empty write
+        if not setup_ok(it["n_after"] + 1, probs):
+            return probs, nt
         before, after = snap(it["before"]), snap(it["after"])
         idx, mempos = it["geo"]
         a, b = np.frombuffer(after, np.uint8), np.frombuffer(before, np.uint8)
@@ -526,7 +547,8 @@ def evaluate(pl, res, d, stats):
             stats["accepted_write_adjacent_to_other_variable"] += 1
             nt = True
         if len(probs) > 12:
-            break
+            return probs, nt
+    setup_ok(1 << 60, probs)
     return probs, nt
 
 
@@ -1044,7 +1066,12 @@ def campaign(ctx):
     for i, case in enumerate(cases):
         if i % ctx.nworkers != ctx.widx:
             continue
-        probs = run(ctx, case)
+        try:
+            probs = run(ctx, case)
+        except HarnessTrouble as e:
+            ctx.notes.append("harness trouble in batch %d %s: %s" % (i, {k: v for k, v in case.items() if k != "reqs"}, e))
+            ctx.stats["harness_exceptions"] += 1
+            continue
         real = []
         for p in probs:
             if ctx.known.match(p):
